@@ -1073,6 +1073,7 @@ impl<T: Payload> X<T> {
 
 fn run_typed<T: Payload>(c: &TypesCase) {
     arena::seed_layout(c.layout_seed, true);
+    exec::set_log_level_sel(if c.layout_seed & 2 == 2 { 1 + ((c.layout_seed >> 21) % 7) as u8 } else { 0 });
     crate::interp::install_panic_hook();
     cactusref::__verif::reset();
     XDROPS.store(0, Ordering::Relaxed);
